@@ -14,7 +14,7 @@ NEED = {
     "C08": ["released", "releasedBridged", "releasedWithInterest", "atBoundary", "rejectedLoans", "withdrawnWithPledge", "repaid",
             "handedOver", "rewardPaid", "stableBorrowed", "walked", "confOkSteps", "drawn"],
     "C09": ["seizures", "sweepSeizures", "bridgedSeizures", "bridged2Seizures", "safeLiquidateRequests", "nearSafeRequests", "nearSafeBridged2", "killedSteps", "blocks", "longWaits",
-            "v1Seizures", "v1SweepSeizures", "v1SafeRequests", "v1KilledSteps"],
+            "v1Seizures", "v1SweepSeizures", "v1SafeRequests", "v1KilledSteps", "v1LongWaits", "v1SmallBatchRuns", "v1CursorWraps", "v1LateSeizures"],
     "C10": ["okBids", "partialBids", "closingBids", "oversizedBids", "priceChecks", "bridgedCloses", "ownerRefunds", "auctionBlocks", "restarts",
             "v1Bids", "v1PartialBids", "v1ClosingBids", "v1OversizedClosing", "v1Recreated", "v1AuctionBlocks", "v1Restarts"],
 }
